@@ -522,6 +522,18 @@ def value_cases(bf, t, conds=(), depth=0):
         c_, v_ = t[2]
         return value_cases(bf, ('agg', 'core::option::Option::Some', (('0', v_),)), conds + [(c_, (1,), None)], depth + 1) + \
             [(('agg', 'core::option::Option::None', ()), conds + [(c_, (0,), None)])]
+    if t[0] == 'call' and isinstance(t[1], str) and t[1].endswith('Option::ok_or') and len(t[2]) == 2:
+        # opt.ok_or(e): Ok(payload) when opt is Some, Err(e) otherwise - when the option's own alternatives are known
+        opt, err = t[2]
+        sub = value_cases(bf, opt, conds, depth + 1)
+        if sub and all(isinstance(v_, tuple) and v_[:1] == ('agg',) and str(v_[1]).endswith(('Option::Some', 'Option::None')) for v_, _ in sub):
+            out = []
+            for v_, cs_ in sub:
+                if str(v_[1]).endswith('Option::Some'):
+                    out.append((('agg', 'core::result::Result::Ok', v_[2]), cs_))
+                else:
+                    out.append((('agg', 'core::result::Result::Err', (('0', err),)), cs_))
+            return out
     if t[0] == 'call' and isinstance(t[1], str) and t[1].endswith('Option::unwrap_or') and len(t[2]) == 2:
         # opt.unwrap_or(d): the Some payload when opt is Some, d otherwise (d is evaluated either way - the value is the same)
         opt, dflt = t[2]
